@@ -83,6 +83,12 @@ class TypeCtx:
                 if nv != v:
                     changed = True
                     nt[key] = nv
+        if k == "array" and t.get("len") is None and t.get("lenp") and ("const " + str(t["lenp"])) in sub:
+            cv = sub["const " + str(t["lenp"])]
+            if isinstance(cv, int):
+                nt["len"] = cv
+                nt["lenp"] = None
+                changed = True
         if "to" in t:
             nv = self.subst(t["to"], sub)
             if nv != t["to"]:
